@@ -89,7 +89,8 @@ fn has_ignored(s: &str) -> bool {
     s.contains(|c| c == '\t' || c == '\n' || c == '\r')
 }
 fn has_delim(s: &str) -> bool {
-    s.contains(|c| matches!(c, '/' | '?' | '#' | '@' | ':' | '\\'))
+    // URL delimiters, and C0/space (trimmed when the normalised URL is read again)
+    s.contains(|c| matches!(c, '/' | '?' | '#' | '@' | ':' | '\\') || c <= ' ')
 }
 
 /// Known-finding class of an input URL, decided on the input alone.
@@ -513,6 +514,9 @@ fn main() {
         println!("url={:?} source={:?} type={:?}", url, src, ty);
         println!("scan={:?}", catch({ let u = url.to_string(); move || scan(&u) }));
         println!("request={:?}", catch({ let (u, s, t) = (url.to_string(), src.to_string(), ty.to_string()); move || Request::new(&u, &s, &t).map(|r| req_fields(&r)) }));
+        if let Ok(r) = Request::new(url, src, ty) {
+            println!("verdict={}", verdict(&e, &r));
+        }
         let mut fails = oracle(&e, url, src, ty);
         if rp["kind"] == "preparsed" {
             let (h, sh, tp) = (rp["hostname"].as_str().unwrap_or("").to_string(), rp["source_hostname"].as_str().unwrap_or("").to_string(), rp["third_party"].as_bool().unwrap_or(false));
@@ -579,6 +583,8 @@ fn main() {
             if b.is_third_party { cs.stat("third_party") } else { cs.stat("first_party") }
             if b.request_type == RequestType::Websocket { cs.stat("websocket") }
             if !b.is_supported { cs.stat("unsupported_scheme") }
+            // observation (not a C12 failure): ASCII host case is kept, so "EXAMPLE.com" and "example.com" are different hosts/domains
+            if b.hostname.bytes().any(|c| c.is_ascii_uppercase()) { cs.stat("observation_upper_case_hostname_kept") }
         }
         let want = match &built { Ok(b) => format!("(Some {})", c_request_eqb(b)), Err(_) => "None".to_string() };
         cs.case(
@@ -609,6 +615,7 @@ fn main() {
             }
         }
     }
+    sm.extra.insert("observation".into(), json!("ASCII host case is not normalised: Request::new(\"http://EXAMPLE.com/x.js\", \"http://example.com/\", \"script\") has hostname \"EXAMPLE.com\", is_third_party = true, and ||example.com^ does not match it; not counted as a C12 failure (the property is stated on the strings the crate reports)"));
     cs.finish();
     sm.write(&a.out, &cs);
 }
